@@ -77,9 +77,53 @@ def tail(cap, ln, srclen, one_by_one=False):
     return t
 
 
+# Capacities with every residue structure an index shortcut of the ring buffer could depend on (1, 2, powers of
+# two and their neighbours, even non-powers of two, odd composites, primes), next to the small exhaustive range
+# (S-C12 / round 3: `& (cap - 1)` for every even capacity is wrong for 6, 10, 12, ...).
+CAPSET = (1, 2, 3, 4, 5, 6, 7, 8, 9, 10, 12, 15, 16, 17, 24, 31, 32, 33, 48, 63, 64, 65, 96, 100, 127, 128, 129,
+          255, 256, 257)
+
+
+def corners(cap, top):
+    """every value 0..top for the small capacities, the corner values for the others"""
+    if cap <= 10:
+        return list(range(top + 1))
+    return sorted(v for v in {0, 1, 2, 3, cap // 2, cap - 2, cap - 1, cap} if v <= top)
+
+
+def capset_cases(k):
+    """deterministic: every capacity of CAPSET x prefill states (start, len) at every value (capacities <= 10) or at
+    the corner values (above: every second pair of the corner grid up to 65, every third above, rotated so that every
+    corner start and every corner len occurs with several partners); the source holds cap + 3 frames, so the prefill
+    is drained and the ring refilled twice (the second refill padded with equilibrium): the ring's indices go round the
+    storage at least twice from a refill start index (start + len) mod cap that takes the corner values.  Four
+    scripts, rotated."""
+    for cap in CAPSET:
+        data = [10 * (i + 1) for i in range(cap)]
+        src = [101 + i for i in range(cap + 3)]
+        scripts = (
+            [["next"], ["frames", cap // 2], ["next"], ["all"], ["exh"], ["next"], ["frames", cap - 1], ["next"], ["next"]],
+            [["frames", 1], ["manual", cap + 2], ["hint"], ["next"], ["next"], ["frames", cap], ["exh"], ["next"]],
+            [["hint"], ["all"], ["next"], ["next"], ["next"], ["frames", 2], ["hint"], ["all"], ["frames", cap + 1]],
+            [["next"]] * 3 + [["exh"], ["all"], ["all"], ["next"], ["frames", cap - 2 if cap > 2 else 1], ["hint"]],
+        )
+        thin = 1 if cap <= 10 else (2 if cap <= 65 else 3)
+        for i, start in enumerate(corners(cap, cap - 1)):
+            for j, ln in enumerate(corners(cap, cap)):
+                if (i + j + cap) % thin != 0:
+                    continue
+                yield build(dict(store=k % 4, ftype=(k // 4) % 2, start=start, len=ln, data=data, src=src,
+                                 ops=[list(o) for o in scripts[(k // 3) % 4]] + (tail(cap, ln, len(src), k % 5 == 0) if cap <= 10 else
+                                                                                 [["exh"], ["all"], ["exh"], ["all"], ["exh"], ["next"], ["exh"]]),
+                                 group="capset"))
+                k += 1
+
+
 def gen_cases(rng, tier):
     """generator (the thorough tier is processed in chunks to bound memory)"""
     k = 0
+    # 0. every capacity of CAPSET, prefill states at the corner values, two refills (see capset_cases)
+    yield from capset_cases(0)
     # 1. every short script from every raw (start,len) state of capacities 1..5
     for cap in range(1, 6):
         data = [10 * (i + 1) for i in range(cap)]
@@ -114,7 +158,7 @@ def gen_cases(rng, tier):
     n_rand = 2000 if tier == "quick" else 40000
     for j in range(n_rand):
         r = rng.fork(f"script{j}")
-        cap = r.choice([1, 1, 2, 2, 3, 3, 4, 4, 5, 5, 6, 7, 8, 11, 16])
+        cap = r.choice([1, 1, 2, 2, 3, 3, 4, 4, 5, 5, 6, 7, 8, 11, 16, 9, 10, 12])
         start = r.below(cap)
         ln = r.choice([0, cap, r.range(0, cap), r.range(0, cap)])
         sl = r.range(0, 13) if not r.chance(1, 10) else r.range(14, 40)
@@ -320,7 +364,7 @@ def main(rep, tier, seed):
     n_rand = groups.get("random", 0)
     dist = {"ops_histogram": hist, "capacity": caps, "source_length": srcl, "group": groups, "storage_and_frame_kind": stores,
             "exhaustive_short_script_cases": st["n"] - n_rand - len(corpus), "random_scripts": n_rand,
-            "corpus_cases": len(corpus), "refills_observed": st["refills"]}
+            "corpus_cases": len(corpus), "refills_observed": st["refills"], "capset_capacities": list(CAPSET)}
     profiles = {"debug": {"evaluations": st["n"], "disagreements": st["bad"],
                           "build": "cargo dev profile (debug assertions + overflow checks on)"},
                 "release": {"evaluations": st["rel_n"], "disagreements": st["rel_bad"],
@@ -353,7 +397,7 @@ def finish(rep, info, n, nontriv, dist, samples, nbad=0, profiles=None):
             "reused: the C06 Bounded model and its refinement lemmas (Ring/BoundedProofs.v)"] + G.TRUSTED,
         "theorems": th, "axioms_reported": info.get("axioms", []),
         "evaluations": n, "distinct_nontrivial": nontriv,
-        "rule": "both cargo profiles (dev and --release) on: every script of depth 0 and 1 (quick: depth 1 for capacities 4,5 on 7 source lengths, depth 2 for capacities <= 3 on 4 source lengths; thorough: depth 2 everywhere, depth 3 for capacities <= 3 (capacity 3 on 6 source lengths)) over {next, frames 0..cap+1, manual cap+2, all, hint, exh} from every raw (start,len) state of capacities 1..5 and source lengths 0..13, each followed by a drain past exhaustion (one frame at a time after the empty script, whole batches after the others) with is_exhausted watched, plus random scripts (2000 quick / 40000 thorough) on capacities 1..16, 4 storage kinds x 2 frame types; non-trivial = a refill (source pull counter rises) happens while the ring's start index != 0, or a partial drain (batch yields >= 1 frame and leaves >= 1) is directly followed by next",
+        "rule": "both cargo profiles (dev and --release) on: the capset family (30 capacities 1..257 covering 1, 2, powers of two and their neighbours, even non-powers of two, odd composites and primes x prefill (start,len) at every value (capacity <= 10) or on the corner grid {0,1,2,3,cap/2,cap-2,cap-1[,cap]} (thinned above 10), source of cap + 3 frames: prefill drained and two refills, four scripts rotated), every script of depth 0 and 1 (quick: depth 1 for capacities 4,5 on 7 source lengths, depth 2 for capacities <= 3 on 4 source lengths; thorough: depth 2 everywhere, depth 3 for capacities <= 3 (capacity 3 on 6 source lengths)) over {next, frames 0..cap+1, manual cap+2, all, hint, exh} from every raw (start,len) state of capacities 1..5 and source lengths 0..13, each followed by a drain past exhaustion (one frame at a time after the empty script, whole batches after the others) with is_exhausted watched, plus random scripts (2000 quick / 40000 thorough) on capacities 1..16, 4 storage kinds x 2 frame types; non-trivial = a refill (source pull counter rises) happens while the ring's start index != 0, or a partial drain (batch yields >= 1 frame and leaves >= 1) is directly followed by next",
         "samples": samples, "input_distribution": dist, "disagreements": nbad, "profiles": profiles or {},
         "explanation": "evaluations = cases x 2 build profiles (debug and release harness binaries run on the same cases; see profiles). theorems: refinement of the model to the ideal prefetcher and its stream / pull-block / exhaustion / padding consequences for all capacities, states, sources and histories; tie: the model's executable definitions run by coqc on the same cases as the real crate, every observation (frames, both pull counters after each op, size_hint, is_exhausted, final ring content) compared exactly",
     }
